@@ -45,6 +45,15 @@ def usage_programs(ctx):
     for f, a in itertools.product(["f0", "f1", "f2", "g0", "i1", "nope"], ["", "1", "1, q", "1, 2, 3", "q", "i1, qr[0]"]):
         out.append(PRE + f"{f}({a});\n")
         out.append(PRE + f"i1 = {f}({a});\n")
+    # definitions that are themselves erroneous (a parameter or qubit name written twice, a name shadowing a global):
+    # the redeclaration is reported, and the callee still has the arity that was WRITTEN
+    for d, name in (("gate gd(t, t) a { }", "gd"), ("gate gq(t) a, a { }", "gq"), ("gate gm(t, u, t) a, b, a { }", "gm"),
+                    ("gate gs(i1, q) qr { }", "gs"), ("gate gd(t) a { }\ngate gd(t, u) a, b { }", "gd")):
+        for a, o in itertools.product(ARGS, ["q", "q, qr[0]", "q, qr[0], qs[1]"]):
+            out.append(PRE + d + "\n" + name + ("" if a is None else f"({a})") + f" {o};\n")
+    for d, name in (("def fd(int x, int x) { }", "fd"), ("def fq(qubit y, int x, qubit y) { }", "fq")):
+        for a in ["", "1", "1, 2", "q, 1, q", "1, 2, 3"]:
+            out.append(PRE + d + f"\n{name}({a});\n")
     for a, op, b in itertools.product(["q", "qr", "qr[0]", "i1", "$0"], ["+", "-", "*", "/", "**", "++", "==", "&", "<<", "%"], ["q", "2", "qr", "i1"]):
         out.append(PRE + f"{a} {op} {b};\n")
     return out
